@@ -16,6 +16,15 @@ STRENGTHENED = {
     "C03-2": "C03 generator: not(not(G)), not(not(not(G))), nested not in random programs",
     "C07-2": "unification universe: the same functor with other arities",
     "C08-2": "C08 generator: sequences with compound aliasing steps (lists with tail variables, complex terms)",
+    "C01-2": "program generator: float constants 3.0 / 0.1 and an integer-against-equal-float comparison in the goal alphabet",
+    "C11-2": "C11 generator: programs as SOURCE TEXT (kb-text through parse_rule) renamed to names that differ only after an underscore or digit",
+    "C14-2": "C14 generator: infix comparisons in source text with non-ASCII operands, order oracle",
+    "C19-2": "C19 goal generator: infix unification leaves with parentheses/brackets on both sides",
+    "C05-3": "C05 generator: time(..) shapes asked beyond exhaustion",
+    "C05-4": "C05 generator: printing disjunctions as non-last goals whose every combination fails",
+    "C10-3": "C10 generator: freshness during a search (facts with variables inside structures, exact reference oracle)",
+    "C19-4": "C19 term generator: atoms with inner hyphens, spaces, capitals, leading digits",
+    "C22-3": "C22 generator: the stop-flag protocol step by step (timers of earlier queries firing later)",
 }
 
 def parse_log(path):
@@ -97,7 +106,7 @@ def main():
         if first is not None and first[0] == "missed" and own != "missed":
             meta["first_run"] = dict(own="missed", others=first[1])
             meta["caught_by"]["own"] = "missed→" + own
-            meta["strengthening"] = STRENGTHENED.get(seed, "generator strengthened (see DESIGN.md section 10)")
+            meta["strengthening"] = STRENGTHENED.get(name, "generator strengthened (see DESIGN.md section 10)")
         json.dump(meta, open(os.path.join(d, "meta.json"), "w"), indent=1)
         n += 1
     print("stored", n, "seeds")
